@@ -61,7 +61,7 @@ pub fn c13_def() -> PropDef {
     PropDef {
         id: "C13",
         level: "exploration",
-        rule: "proptest cfg (4..5 real nodes through the real node.rs wiring, per-link keyed delays 5..45 ms i.e. well below the 1 s timeout, batch parameters, seeds) + tape -> clients submit 1..60 transactions of 10..150 bytes to tape-chosen nodes at tape-chosen instants; variant (half of the cases): one victim never receives the batch broadcasts of one creator (frames on that mempool link are dropped, so the creator reaches its quorum elsewhere and drops the handle) and, in half of those, the victim's batch requests to one peer are dropped too (unresponsive first sync target -> retry with other peers). No crashes; cases in which a Timeout/TC nevertheless appears are outside the property's domain and are skipped (counted). Oracle after a quiescence horizon (extended by up to 30 virtual seconds while some node's highest committed round is more than 6 below another's: the property sets no deadline for the recovery of a node that lacks a batch, and recovery may have to wait for the consensus synchronizer's 5 s retry tick): every submitted transaction occurs in a batch whose digest is in the payload of a block that is in every node's commit sequence, and re-opening every node's store (Store::new on the same path) returns exactly that batch's bytes; commit sequences are pairwise prefix-consistent; the victim's highest committed round is within 6 rounds of the others' and it sent a BatchRequest and stored the batch it had missed. Non-trivial: transactions went to >= 2 nodes and >= 3 non-empty blocks were committed, or (variant) a batch was fetched by request; distinct by (delays, load pattern) hash.",
+        rule: "proptest cfg (4..5 real nodes through the real node.rs wiring, per-link keyed delays 5..45 ms i.e. well below the 1 s timeout, batch parameters, seeds) + tape -> clients submit 1..60 transactions of 10..150 bytes to tape-chosen nodes at tape-chosen instants, or (one case in six) a burst of 150..400 transactions that each seal a batch of their own, back to back, so that the proposers hold a backlog of hundreds of digests; variant (half of the cases): one victim never receives the batch broadcasts of one creator (frames on that mempool link are dropped, so the creator reaches its quorum elsewhere and drops the handle) and, in half of those, the victim's batch requests to one peer are dropped too (unresponsive first sync target -> retry with other peers). No crashes; cases in which a Timeout/TC nevertheless appears are outside the property's domain and are skipped (counted). Oracle after a quiescence horizon (extended by up to 30 virtual seconds while some node's highest committed round is more than 6 below another's: the property sets no deadline for the recovery of a node that lacks a batch, and recovery may have to wait for the consensus synchronizer's 5 s retry tick): every submitted transaction occurs in a batch whose digest is in the payload of a block that is in every node's commit sequence, and re-opening every node's store (Store::new on the same path) returns exactly that batch's bytes; commit sequences are pairwise prefix-consistent; the victim's highest committed round is within 6 rounds of the others' and it sent a BatchRequest and stored the batch it had missed. Non-trivial: transactions went to >= 2 nodes and >= 3 non-empty blocks were committed, or (variant) a batch was fetched by request; distinct by (delays, load pattern) hash.",
         assumptions: &[
             "no faults other than the dropped mempool link of the variant; delays below a quarter of the round timeout",
             "the commit channel is observed through the real Node::commit receiver",
@@ -87,18 +87,29 @@ fn c13_run(case: &Case, _ctx: &Ctx) -> Outcome {
         max_batch_delay: cfg_range(&case.cfg, 7, 10, 80),
     };
     let mut t = Tape::new(&case.tape);
-    let ntx = t.range(1, 60) as usize;
+    // burst profile (one case in six): 150..400 transactions, each sealing a batch of its own, submitted
+    // back to back to tape-chosen nodes, so that the proposers hold a backlog of hundreds of digests
+    let burst = t.chance(1, 6);
+    let mut params = params;
+    if burst {
+        params.batch_size = 20;
+    }
+    let ntx = if burst { t.range(150, 400) } else { t.range(1, 60) } as usize;
     let mut plan: Vec<(usize, Vec<u8>, u64)> = Vec::new(); // (node, tx, gap ms)
     for i in 0..ntx {
         let node = t.below(n);
-        let len = t.range(10, 150) as usize;
+        let len = if burst { t.range(24, 40) } else { t.range(10, 150) } as usize;
         let mut tx = vec![1u8; len];
         tx[1..9].copy_from_slice(&(i as u64 + 1).to_be_bytes());
         tx[9] = node as u8;
-        let gap = match t.weighted(&[3, 3, 1]) {
-            0 => 0,
-            1 => t.range(1, 30),
-            _ => t.range(30, 150),
+        let gap = if burst {
+            if t.chance(1, 40) { t.range(1, 20) } else { 0 }
+        } else {
+            match t.weighted(&[3, 3, 1]) {
+                0 => 0,
+                1 => t.range(1, 30),
+                _ => t.range(30, 150),
+            }
         };
         plan.push((node, tx, gap));
     }
@@ -353,6 +364,11 @@ fn c13_run(case: &Case, _ctx: &Ctx) -> Outcome {
                 out.class("first-sync-target-unresponsive");
             }
         }
+    }
+    if burst {
+        out.class("burst-of-single-transaction-batches");
+        let biggest = chains.values().next().map_or(0, |c| c.iter().map(|b| b.payload.len()).max().unwrap_or(0));
+        out.class(&format!("largest-committed-payload={}", match biggest { 0..=31 => "<32", 32..=99 => "32-99", 100..=199 => "100-199", _ => "200+" }));
     }
     out.class(&format!("nonempty-blocks={}", match nonempty { 0 => "0", 1..=2 => "1-2", _ => "3+" }));
     out.nontrivial = (nodes_used.len() >= 2 && nonempty >= 3) || fetched;
